@@ -37,7 +37,8 @@ func (c17) Meta() fw.Meta {
 			"(B) the sum read path (cmd.sumWhisperFile via the verif export hook) over 2-40 files from several goroutines while a harness handle holds the flock of the first file for a few ms (forcing out-of-order completion): header must be the first file's and every value the left fold in glob order of the per-file fetches; the real copy/diff binaries (errgroup reads) built with -race are run too; " +
 			"(C) the real server built with -race is hit by 8-64 parallel HTTP clients over all five endpoints, same and different files; each concurrent body must be byte-equal to the body of the same URL requested alone. " +
 			"The Go race detector is on in every process (harness, CLI, server); reports are collected from GORACE log files and each is a violation. " +
-			"non-trivial = trial in which at least two distinct requests were in flight simultaneously (measured in the harness); distinct by (kind, seed, index).",
+			"non-trivial = trial in which at least two distinct requests were in flight simultaneously (measured in the harness); distinct by (kind, seed, index)." +
+			" After the parallel phase: a request that fails after its file was opened (archive id out of range, from > until), then a valid request for the same file with a 20 s deadline.",
 		Assumptions: []string{
 			"the race detector sees only races that happen in the executed schedules; in-flight overlap is measured and a trial without overlap does not count as non-trivial",
 			"requests carry their clock (now) so sequential and concurrent executions are comparable bit for bit",
